@@ -32,11 +32,15 @@ impl Ev {
     }
 }
 
+/// Argument for `U::advance`: every temporary entry alive now expires.
+pub const EON: u32 = u32::MAX;
+
 pub type StateSnap = Vec<(Rc<LedgerKey>, Rc<LedgerEntry>, Option<u32>)>;
 
 pub struct Ckpt {
     map: StorageMap,
     ledger: soroban_sdk::testutils::LedgerInfo,
+    advanced: u32,
 }
 
 /// Who authorises a call.
@@ -172,12 +176,19 @@ impl U {
         self.env.ledger().set_sequence_number(s);
     }
 
-    /// Let `d` ledgers pass (5 s each). The harness keeps the total below the minimum persistent
-    /// TTL it configured (4 000 000 ledgers), so nothing a contract stored persistently is archived
-    /// by the harness's own clock; anything kept in temporary storage may well disappear.
+    /// Let `d` ledgers pass (5 s each). Whenever the harness's own clock would come close to the
+    /// minimum persistent TTL it configured (4 000 000 ledgers), every persistent entry has its
+    /// lifetime extended first - on the network anybody may extend or restore a persistent entry, and
+    /// contracts cannot observe lifetimes - so nothing stored persistently is ever archived by the
+    /// harness's clock, while anything kept in temporary storage disappears when its lifetime ends.
+    /// `d == EON` lets every temporary entry that exists now reach the end of its lifetime.
     pub fn advance(&mut self, d: u32) -> bool {
+        if d == EON {
+            self.eon();
+            return true;
+        }
         if self.advanced as u64 + d as u64 > 3_400_000 {
-            return false;
+            self.pay_rent(self.seq() + d);
         }
         self.advanced += d;
         self.set_seq(self.seq() + d);
@@ -185,15 +196,67 @@ impl U {
         true
     }
 
+    /// Extend every persistent entry (data, instances, code) to live at least 4 000 000 ledgers
+    /// beyond `at`, and drop temporary entries whose lifetime ends before `at`.
+    fn pay_rent(&mut self, at: u32) {
+        let map = self.raw_map();
+        let budget = self.env.host().budget_cloned();
+        let mut out = Vec::new();
+        for (k, v) in map.iter(&budget).unwrap() {
+            let temp = matches!(k.as_ref(), LedgerKey::ContractData(cd) if cd.durability == ContractDataDurability::Temporary);
+            match v {
+                Some((e, Some(l))) if temp => {
+                    if *l >= at {
+                        out.push((k.clone(), Some((e.clone(), Some(*l)))));
+                    }
+                }
+                Some((e, Some(l))) => out.push((k.clone(), Some((e.clone(), Some((*l).max(at + 4_000_000)))))),
+                other => out.push((k.clone(), other.clone())),
+            }
+        }
+        let m = StorageMap::from_map(out, &budget).unwrap();
+        self.env
+            .host()
+            .with_mut_storage(move |s| {
+                s.map = m;
+                Ok(())
+            })
+            .unwrap();
+        self.advanced = 0;
+    }
+
+    /// A very long time passes: the ledger moves just beyond the end of the lifetime of every
+    /// temporary entry that exists now (whatever lifetime the code gave it, up to the network
+    /// maximum), while all persistent entries are kept alive.
+    pub fn eon(&mut self) -> u32 {
+        let map = self.raw_map();
+        let budget = self.env.host().budget_cloned();
+        let mut t_max = self.seq();
+        for (k, v) in map.iter(&budget).unwrap() {
+            if let (LedgerKey::ContractData(cd), Some((_, Some(l)))) = (k.as_ref(), v) {
+                if cd.durability == ContractDataDurability::Temporary && !matches!(cd.key, ScVal::LedgerKeyNonce(_)) {
+                    t_max = t_max.max(*l);
+                }
+            }
+        }
+        let to = t_max + 1;
+        let d = to - self.seq();
+        self.pay_rent(to);
+        self.set_seq(to);
+        self.set_time(self.time() + 5 * d as u64);
+        d
+    }
+
     /// Move the ledger clock forward to timestamp `t`, letting the matching number of ledgers
     /// (5 s each) close as far as the harness's advancement budget allows.
     pub fn advance_to_time(&mut self, t: u64) {
         let now = self.time();
         if t > now {
-            let ledgers = ((t - now) / 5).min(3_000_000) as u32;
-            let room = 3_400_000u32.saturating_sub(self.advanced);
-            let d = ledgers.min(room);
+            let d = ((t - now) / 5).min(3_000_000) as u32;
             if d > 0 {
+                if self.advanced as u64 + d as u64 > 3_400_000 {
+                    self.pay_rent(self.seq() + d);
+                }
                 self.advanced += d;
                 self.set_seq(self.seq() + d);
             }
@@ -214,6 +277,7 @@ impl U {
         Ckpt {
             map: self.raw_map(),
             ledger: self.env.ledger().get(),
+            advanced: self.advanced,
         }
     }
 
@@ -227,6 +291,7 @@ impl U {
             })
             .unwrap();
         self.env.ledger().set(ck.ledger.clone());
+        self.advanced = ck.advanced;
         self.skip_events();
     }
 
